@@ -1,0 +1,35 @@
+//! Verification hook (cargo feature `verif`, off by default): a thread-local logical step
+//! counter that the parser driver and the built-in lexer tick once per loop iteration, so that
+//! a monitor can bound the work of a parse in logical steps instead of wall-clock time.
+#![allow(missing_docs)]
+
+use std::cell::Cell;
+
+thread_local! {
+    static STEPS: Cell<u64> = const { Cell::new(0) };
+    static BUDGET: Cell<u64> = const { Cell::new(u64::MAX) };
+}
+
+/// Message of the panic raised by `tick` when the budget is exceeded.
+pub const BUDGET_EXCEEDED: &str = "lalrpop-verif: step budget exceeded";
+
+pub fn reset(budget: u64) {
+    STEPS.with(|s| s.set(0));
+    BUDGET.with(|b| b.set(budget));
+}
+
+pub fn steps() -> u64 {
+    STEPS.with(|s| s.get())
+}
+
+pub fn tick() {
+    let n = STEPS.with(|s| {
+        let n = s.get() + 1;
+        s.set(n);
+        n
+    });
+    if n > BUDGET.with(|b| b.get()) {
+        BUDGET.with(|b| b.set(u64::MAX));
+        panic!("{}", BUDGET_EXCEEDED);
+    }
+}
